@@ -32,13 +32,49 @@ LEVEL_NOTE = 'trusted: the closure corpus really is explicit (audited list in th
 CUSTOM = {'FIELD': '!', 'COMPONENT': '$', 'SUBCOMPONENT': '%', 'REPETITION': '*', 'ESCAPE': '@'}
 
 
+_PRISTINE = {}       # dictionaries of the library taken before any default was touched: name -> (object, copy of its content)
+
+
+def _pristine():
+    if not _PRISTINE:
+        import hl7apy
+        from hl7apy import consts
+        for name, obj in (('consts.DEFAULT_ENCODING_CHARS', consts.DEFAULT_ENCODING_CHARS),
+                          ('consts.DEFAULT_ENCODING_CHARS_27', getattr(consts, 'DEFAULT_ENCODING_CHARS_27', None)),
+                          ('get_default_encoding_chars() taken before any change', hl7apy.get_default_encoding_chars())):
+            if isinstance(obj, dict):
+                _PRISTINE[name] = (obj, dict(obj))
+    return _PRISTINE
+
+
+def explicit_ec(case):
+    """the delimiter set passed explicitly: the harness's own dictionary, or - same content - one of the library's own objects"""
+    src = case.get('ec_source', 'own')
+    if src == 'constant':
+        return _pristine()['consts.DEFAULT_ENCODING_CHARS'][0]
+    if src == 'captured':
+        return _pristine()['get_default_encoding_chars() taken before any change'][0]
+    return case.get('ec')
+
+
 class Defaults(object):
     def __enter__(self):
         import hl7apy
         self.h = hl7apy
+        _pristine()
         self.saved = (hl7apy._DEFAULT_ENCODING_CHARS, hl7apy._DEFAULT_ENCODING_CHARS_27, hl7apy._DEFAULT_VERSION,
                       hl7apy._DEFAULT_VALIDATION_LEVEL)
+        self.damaged = []
         return self
+
+    def heal(self):
+        """a library dictionary whose CONTENT was changed is put right again (and remembered), so that one case cannot
+        contaminate the next"""
+        for name, (obj, copy) in _pristine().items():
+            if {k: v for k, v in obj.items() if k not in ('GROUP', 'SEGMENT')} != {k: v for k, v in copy.items() if k not in ('GROUP', 'SEGMENT')}:
+                self.damaged.append((name, dict(obj)))
+                obj.clear()
+                obj.update(copy)
 
     def set(self, cfg):
         if cfg is None:
@@ -53,6 +89,7 @@ class Defaults(object):
 
     def restore(self):
         h_ = self.h
+        self.heal()
         h_._DEFAULT_ENCODING_CHARS, h_._DEFAULT_ENCODING_CHARS_27, h_._DEFAULT_VERSION, h_._DEFAULT_VALIDATION_LEVEL = self.saved
 
     def __exit__(self, *a):
@@ -85,7 +122,7 @@ def phase1(case):
     from hl7apy import core
     from hl7apy.factories import datatype_factory
     k = case['kind']
-    ec = case.get('ec')
+    ec = explicit_ec(case)
     if k == 'parse_message':
         return P.parse_message(case['text'], validation_level=case['level'], find_groups=case['find_groups'])
     if k == 'parse_segment':
@@ -170,7 +207,7 @@ def phase2(case, state):
     raise ValueError(k)
 
 
-def outcome(case, cfg1, cfg2):
+def outcome(case, cfg1, cfg2, damaged=None):
     with Defaults() as d:
         try:
             d.set(cfg1)
@@ -179,14 +216,21 @@ def outcome(case, cfg1, cfg2):
             return ('ok', phase2(case, st_))
         except Exception as e:
             return ('exc', type(e).__name__, str(e)[:300])
+        finally:
+            d.heal()
+            if damaged is not None:
+                damaged.extend(d.damaged)
 
 
 def check(case, acc=None):
     cfg = case['cfg']
-    base = outcome(case, None, None)
-    allb = outcome(case, cfg, cfg)
-    mixed = outcome(case, None, cfg)
+    damaged = []
+    base = outcome(case, None, None, damaged)
+    allb = outcome(case, cfg, cfg, damaged)
+    mixed = outcome(case, None, cfg, damaged)
     out = []
+    if damaged:
+        out.append(('C17-changing-a-default-rewrites-a-library-dictionary', 'under defaults %r: %s now holds %r' % (cfg, damaged[0][0], damaged[0][1])))
     what = '%s %s' % (case['kind'], {k: v for k, v in case.items() if k in ('v', 'level', 'dt', 'value', 'name', 'seg', 'fname', 'text')})
     if allb != base:
         out.append(('C17-result-depends-on-defaults:%s:%s' % (case['kind'], _dim(base, allb)),
@@ -252,6 +296,9 @@ def cases(draw, cells, mcells):
         ec = draw(S.delimiter_sets(v, default_weight=5))
         line = draw(S.segment_line(v, s, ec, leaf_fn=c17_leaf, p_fill=2))
         case = {'kind': k, 'v': v, 'text': line, 'level': level, 'ec': ec}
+        if {x: ec[x] for x in ec if x != 'TRUNCATION'} == R.DEFAULT_EC and 'TRUNCATION' not in ec:
+            # the standard set can also be handed over as the library's own constant / as a dictionary obtained from it earlier
+            case['ec_source'] = draw(st.sampled_from(['own', 'constant', 'captured']))
     elif k == 'parse_field':
         c = draw(c01.field_cases(cells))
         v = c['v']
@@ -263,6 +310,8 @@ def cases(draw, cells, mcells):
                 'ec': c['ec'] or S.default_ec(v)}
     elif k == 'message_model':
         model = draw(c07.cases(c07.message_cells()))
+        if model['how'] == 4:
+            model['how'] = 0      # stand-alone segments take string values with the DEFAULT delimiters (documented): not an explicit closure
         case = {'kind': k, 'model': model, 'v': model['v'], 'level': 2}
     elif k == 'factory':
         v = draw(st.sampled_from(T.VERSIONS))
